@@ -36,22 +36,36 @@ def make_spec(seed):
             image_states.append(name)
             depth[name] = depth[parent] + 1
     multi = None
-    if pick(seed, "multi", [False, True, True]):
+    clone_heavy = seed % 3 == 2
+    if pick(seed, "multi", [False, True, True]) or clone_heavy:
         parent = pick(seed, "multiparent", [s for s in image_states])
         multi = {"name": "gm", "parent": parent, "branches": ["gma", "gmb"] + (["gmc"] if pick(seed, "three", [0, 0, 1]) else []),
                  "dependant": "gd", "dependant_sets": pick(seed, "dsets", [True, True, False])}
+    if multi and multi["dependant_sets"] and pick(seed, "deep", [False, True]):
+        # one more stateful level below the dependant: leaves are then third-level clones
+        multi["dependant2"] = "ge"
+    mtarget = None
+    if multi:
+        mtarget = multi.get("dependant2") or ("gd" if multi["dependant_sets"] else "gm")
     leaves = []
     for j in range(1, pick(seed, "nleaves", [2, 3, 4, 5]) + 1):
         two = pick(seed, f"two{j}", [False, False, True])
         choices = [(s["type"], s["name"]) for s in setups] + [("images", "customize")]
         if multi:
             # weighted: several leaves (with one and two vms) cloned over the same producers is where parsing is hardest
-            choices += [("images", "gd") if multi["dependant_sets"] else ("images", "gm")] * 3
+            choices += [("images", mtarget)] * 3
         typ, dep = pick(seed, f"dep{j}", choices)
         leaf = {"name": f"gl{j}", "vms": ["vm1", "vm2"] if two else ["vm1"], "dep": {"vm1": [typ, dep]}}
         if two:
             leaf["dep"]["vm2"] = ["images", pick(seed, f"dep2{j}", ["customize"] + [s["name"] for s in setups if s["type"] == "images"][:2])]
         leaves.append(leaf)
+    if clone_heavy:
+        # every third suite: a one-vm and a two-vm leaf cloned over the same producers, in either order
+        mdep = ["images", mtarget]
+        a, b = pick(seed, "cloneorder", [(0, 1), (1, 0)])
+        leaves[a] = {"name": leaves[a]["name"], "vms": ["vm1"], "dep": {"vm1": list(mdep)}}
+        leaves[b] = {"name": leaves[b]["name"], "vms": ["vm1", "vm2"],
+                     "dep": {"vm1": list(mdep), "vm2": ["images", pick(seed, "clonevm2", ["customize"] + [s["name"] for s in setups if s["type"] == "images"][:1])]}}
     return {"seed": seed, "setups": setups, "multi": multi, "leaves": leaves}
 
 
@@ -83,6 +97,11 @@ def setup_text(spec):
                   f"{pad}    type = shared_manage_vm"]
         if m["dependant_sets"]:
             lines.append(f"{pad}    set_state_images = {m['dependant']}")
+        if m.get("dependant2"):
+            lines += [f"{pad}- {m['dependant2']}:",
+                      f"{pad}    get_images = {m['dependant']}",
+                      f"{pad}    set_state_images = {m['dependant2']}",
+                      f"{pad}    type = shared_manage_vm"]
     return "\n".join(lines) + "\n"
 
 
@@ -97,7 +116,7 @@ def leaves_text(spec):
             lines.append(f"                get_{typ}{suffix} = {dep}")
             multi = spec["multi"]
             # a dependency on the multi-producer group (or on its stateful dependant) carries no state: clones get it
-            if multi and dep in (multi["name"], multi["dependant"]):
+            if multi and dep in (multi["name"], multi["dependant"], multi.get("dependant2")):
                 continue
             lines.append(f"                get_state_{typ}{suffix} = {dep}")
     return "\n".join(lines) + "\n"
